@@ -22,8 +22,22 @@ type memCase struct {
 var memOpts = gen.Opts{OddTypes: true, Alpha: gen.Hostile, MaxSamples: 10, MaxDepth: 5, MaxLines: 4, MinTypes: 0, MaxTypes: 4, Extreme: true, AnyIDs: true, Unused: true,
 	Labels: true, NumLabels: true, EmptyLabel: true, EmptyStacks: true, NoMapping: true, Unsym: true, Header: true, Columns: true, Folded: true}
 
+// texts that are the opening line of one of the legacy (text) profile formats
+var legacyLooking = []string{"heap profile: 1: 2 [ 3: 4] @ heapprofile", "heap profile: 1: 2 [ 3: 4] @ heap_v2/524288", "--- threadz 1 ---", "--- contentionz 1 ---", "--- heapz 1 ---",
+	"goroutine profile: total 1", "--- mutex:", "--- contention:", "--- Memory map: ---", "MAPPED_LIBRARIES:"}
+
 func genMem(t *rapid.T) *memCase {
-	return &memCase{P: gen.Profile(t, memOpts)}
+	p := gen.Profile(t, memOpts)
+	if rapid.IntRange(0, 14).Draw(t, "headeronly") == 0 {
+		// a profile that only carries metadata (the 0 end of "0..k sample types"), whose free-form texts happen
+		// to read like the first line of a legacy profile
+		p.SampleTypes, p.Samples, p.Locations, p.Functions, p.Mappings, p.DefaultSampleType = nil, nil, nil, nil, nil, ""
+		p.Comments = rapid.SliceOfN(rapid.SampledFrom(legacyLooking), 1, 3).Draw(t, "legacycomments")
+		if rapid.Bool().Draw(t, "legacydoc") {
+			p.DocURL = rapid.SampledFrom(legacyLooking).Draw(t, "legacydocurl")
+		}
+	}
+	return &memCase{P: p}
 }
 
 func firstDiff(a, b string) string {
